@@ -425,9 +425,19 @@ def _freeze(SG):
     return tuple(sorted((k, tuple(p), tuple(sorted(tuple(sorted(sh)) for sh in shs))) for k in SG for p, shs in SG[k].items()))
 
 
-def run(ctx):
+def _try_bisc(A, m, n):
+    """bisc in the main process, only to *select* inputs for the other checks: a crash of
+    the code under test here is not the checker's crash (C17.bisc reports it)."""
     from permuta.bisc.bisc import bisc
 
+    try:
+        SG = _quiet(bisc, list(A), m, n)
+    except Exception:  # noqa: BLE001
+        return None
+    return SG if _shape_problem(SG) is None else None
+
+
+def run(ctx):
     quick = ctx.tier == "quick"
     rng = D.subrng(ctx, "c17")
     F.selfcheck(D.subrng(ctx, "c17-spec"), count=24 if quick else 120)
@@ -456,11 +466,12 @@ def run(ctx):
     # ---------------------------------------------------------------- own containment
     distinct = {}
     for (A, m, n) in small:
-        SG = _quiet(bisc, list(A), m, n)
-        distinct.setdefault(_freeze(SG), SG)
+        SG = _try_bisc(A, m, n)
+        if SG is not None:
+            distinct.setdefault(_freeze(SG), SG)
     for (A, m, n) in seeded[: 40 if quick else 300]:
-        SG = _quiet(bisc, list(A), m, n)
-        if sum(len(v) for k in SG for v in SG[k].values()) <= 80:
+        SG = _try_bisc(A, m, n)
+        if SG is not None and sum(len(v) for k in SG for v in SG[k].values()) <= 80:
             distinct.setdefault(_freeze(SG), SG)
     learned_sgs = list(distinct.values())
     synthetic = [{}, {0: {Perm(()): [set()]}}, {0: {Perm(()): [{(0, 0)}]}}, {1: {Perm((0,)): []}}]
@@ -498,8 +509,8 @@ def run(ctx):
     # ---------------------------------------------------------------- clean-up
     cands = []
     for (A, m, n) in seeded + [small[i] for i in rng.sample(range(len(small)), 200 if quick else 1200)]:
-        SG = _quiet(bisc, list(A), m, n)
-        if _cleanup_applicable(SG):
+        SG = _try_bisc(A, m, n)
+        if SG is not None and _cleanup_applicable(SG):
             cands.append((A, m, n))
         if len(cands) >= (400 if quick else 2500):
             break
@@ -508,9 +519,13 @@ def run(ctx):
     for (A, m, n) in cands[: 34 if quick else 110]:
         bm = rng.choice((n, n, min(n + 1, 5)))
         clean.append((A, m, n, bm, rng.choice((0, 0, 1, 2)), rng.choice((0, 0, 3))))
-    ctx.run("C17.cleanup", clean, chunk=1, timeout_s=300,
-            rule=f"{len(clean)} seeded (A, m, n) with a learned pattern and <= {MAX_MONITORS} initial monitors; B = complement of A "
-                 f"up to bm in (n, n+1) (or two thirds of it), limit_monitors in (0, #patterns, #patterns+1); non-trivial = a basis is returned")
+    if clean:
+        ctx.run("C17.cleanup", clean, chunk=1, timeout_s=300,
+                rule=f"{len(clean)} seeded (A, m, n) with a learned pattern, <= {MAX_PATTERNS_CLEANUP} learned patterns and <= "
+                     f"{MAX_MONITORS} initial monitors; B = complement of A up to bm in (n, n+1) (or two thirds of it), "
+                     f"limit_monitors in (0, #patterns, #patterns+1); non-trivial = a basis is returned")
+    else:
+        ctx.notes["C17.cleanup"] = "no applicable input (bisc produced no usable output in the main process)"
     # ---------------------------------------------------------------- automatic driver
     if quick:
         autos = [("av_231_lambda", 7), ("simsun", 7)]
